@@ -23,6 +23,26 @@ FAMILIES = [  # name, threads, calls per thread, operations, share of the behavi
     ("four", 4, 1, ["Recv", "Send", "SetDL", "Close"], 0.1),
 ]
 
+def close_amid_two(b):
+    """a Close runs from its first step to its return while at least two other calls are in their middle (each has
+    taken a step of its body already and returns only after the Close did): the three-way races of the queue"""
+    h = b["hist"]
+    for ct in {x["t"] for x in h if x["l"] == "Pick" and x["op"] == "Close"}:
+        body = [i for i, x in enumerate(h) if x["t"] == ct and x["op"] == "Close" and x["l"] != "Pick"]
+        rets = [i for i, x in enumerate(h) if x["t"] == ct and x["op"] == "Close" and x["l"] == "Ret"]
+        if not body or not rets:
+            continue
+        c0, c1 = body[0], rets[0]
+        mid = 0
+        for t in {x["t"] for x in h} - {ct}:
+            steps = [i for i, x in enumerate(h) if x["t"] == t and x["l"] not in ("Pick", "Ret")]
+            ret = [i for i, x in enumerate(h) if x["t"] == t and x["l"] == "Ret"]
+            if any(i < c0 for i in steps) and any(i > c1 for i in steps) and (not ret or ret[0] > c1):
+                mid += 1
+        if mid >= 2:
+            return True
+    return False
+
 def behaviours(fam, num, depth, seed, variant, cap, want=None):
     name, nt, calls, ops, _ = fam
     cfg = CFG % (", ".join("t%d" % (i + 1) for i in range(nt)), calls, cap, ", ".join('"%s"' % o for o in ops), variant)
@@ -189,6 +209,15 @@ def run(v, tier, replay):
             b["id"] = len(behs); b["family"] = fam[0]
             behs.append(b)
         v.cov["behaviours_" + fam[0]] = len(bs)
+    # directed sampling: many more simulations of the one-call programs, of which only the three-way races around a
+    # Close are kept (a Close that runs entirely while two other calls are in their middle)
+    fam = ("close-amid-two", 3, 1, ["Recv", "Send", "SetDL", "Close"], 0)
+    r, bs = behaviours(fam, 30000 if thorough else 9000, 90, lib.seed() + 17, VARIANT, cap, want=close_amid_two)
+    v.add_tlc("MC_HopSync simulation, family close-amid-two (behaviour generation, filtered)", r)
+    for b in bs[:1500 if thorough else 500]:
+        b["id"] = len(behs); b["family"] = fam[0]
+        behs.append(b)
+    v.cov["behaviours_close-amid-two"] = min(len(bs), 1500 if thorough else 500)
     NP = 12
     # counterexamples of the design property in the variant that describes the code: confirmed on the code
     for ops, r, b in directed_counterexamples(VARIANT, cap):
